@@ -312,6 +312,14 @@ pub fn run(ctx: &Ctx) -> i32 {
                         2 => Sched::Fixed(*rng.pick(if heavy { &[4096usize, 8191, 8192, 16384][..] } else { &[2usize, 3, 7, 4096][..] })),
                         _ => Sched::Random(rng.next(), 16),
                     })];
+                    // a YAML spelling may also be UTF-16 or UTF-32 text (with a byte order mark)
+                    let bytes = match (src == Fmt::Yaml && sp == 2 && i % 3 == 0, std::str::from_utf8(&bytes)) {
+                        (true, Ok(t)) => {
+                            acc.count("yaml_spelled_in_utf16_or_utf32");
+                            crate::c07::ENCS[rng.below(4)].encode(t, true)
+                        }
+                        _ => bytes,
+                    };
                     let det = detected_as(&bytes);
                     for mode in &modes {
                         judge(&bytes, Some(src), src, to, mode, &doc, acc);
@@ -346,7 +354,7 @@ pub fn run(ctx: &Ctx) -> i32 {
         }
     });
     let rule = format!(
-        "{} generated documents of the common model (scalar pools aimed at type look-alike strings, YAML indicators, control/BOM/non-character/astral code points, integer boundaries of every width, 17-digit and special floats; depth up to 64; wide collections at MessagePack header thresholds; every 150th document a 'heavy' one: 4 095..70 000 entries, or tens of KiB of multi-byte text) x 16 (source,target) pairs (TOML pairs on the TOML-representable restriction) x 3 spellings (1 conventional, 2 hostile) x [slice, 1 scheduled reader] x [explicit, detected when the detect hook names the source format]; plus one batch per document of 2-3 documents in different source formats through ONE translator (detection where possible), each output document compared with its translation alone; oracle = independent reader of the target; distinct non-trivial = distinct documents containing >= 1 hostile-class scalar or depth >= 3",
+        "{} generated documents of the common model (scalar pools aimed at type look-alike strings, YAML indicators, control/BOM/non-character/astral code points, integer boundaries of every width, 17-digit and special floats; depth up to 64; wide collections at MessagePack header thresholds; every 150th document a 'heavy' one: 4 095..70 000 entries, or tens of KiB of multi-byte text) x 16 (source,target) pairs (TOML pairs on the TOML-representable restriction) x 3 spellings (1 conventional, 2 hostile; every third document's last YAML spelling re-encoded as UTF-16/32 with a byte order mark) x [slice, 1 scheduled reader] x [explicit, detected when the detect hook names the source format]; plus one batch per document of 2-3 documents in different source formats through ONE translator (detection where possible), each output document compared with its translation alone; oracle = independent reader of the target; distinct non-trivial = distinct documents containing >= 1 hostile-class scalar or depth >= 3",
         n
     );
     ev::finish(
@@ -361,7 +369,7 @@ pub fn run(ctx: &Ctx) -> i32 {
             extra: serde_json::Map::new(),
             exhaustive: false,
             min_distinct: 200,
-            must_reach: vec![("heavy_documents".into(), 10), ("detected_runs".into(), 100), ("class_lookalike_strings".into(), 50), ("class_float_values".into(), 50), ("shared_translator_batches".into(), 1000), ("shared_translator_batches_with_two_detections".into(), 100)],
+            must_reach: vec![("heavy_documents".into(), 10), ("detected_runs".into(), 100), ("class_lookalike_strings".into(), 50), ("class_float_values".into(), 50), ("shared_translator_batches".into(), 1000), ("yaml_spelled_in_utf16_or_utf32".into(), 500), ("shared_translator_batches_with_two_detections".into(), 100)],
         },
         acc,
     )
@@ -413,5 +421,24 @@ pub fn replay(v: &Value) -> i32 {
 }
 
 pub fn read_source(src: Fmt, input: &[u8]) -> Result<Val, String> {
+    if src == Fmt::Yaml {
+        // replayed inputs may be UTF-16/32 with a BOM: decode with the standard library first
+        let units16 = |le: bool, b: &[u8]| -> Option<String> { char::decode_utf16(b.chunks_exact(2).map(|c| if le { u16::from_le_bytes([c[0], c[1]]) } else { u16::from_be_bytes([c[0], c[1]]) })).collect::<Result<String, _>>().ok() };
+        let units32 = |le: bool, b: &[u8]| -> Option<String> { b.chunks_exact(4).map(|c| char::from_u32(if le { u32::from_le_bytes([c[0], c[1], c[2], c[3]]) } else { u32::from_be_bytes([c[0], c[1], c[2], c[3]]) })).collect::<Option<String>>() };
+        let decoded = if input.starts_with(&[0xff, 0xfe, 0, 0]) {
+            units32(true, &input[4..])
+        } else if input.starts_with(&[0, 0, 0xfe, 0xff]) {
+            units32(false, &input[4..])
+        } else if input.starts_with(&[0xff, 0xfe]) {
+            units16(true, &input[2..])
+        } else if input.starts_with(&[0xfe, 0xff]) {
+            units16(false, &input[2..])
+        } else {
+            None
+        };
+        if let Some(t) = decoded {
+            return crate::selfcheck::read_back(src, t.as_bytes());
+        }
+    }
     crate::selfcheck::read_back(src, input)
 }
